@@ -188,6 +188,20 @@ def run_case(case):
         if not d2 <= band:
             r.violation(f'{sig}:user-bounds-recovery:{bucket}', f'{tag}: with user bounds sup|F_fit-F_emp|={d2:.4f} > {band:.4f}',
                         case=case, params=pp)
+        # the same bounds given positionally to a prototype that the selecting wrapper clones (get_instance)
+        wrp = U.Univariate(candidates=[U.TruncatedGaussian(a, b)])
+        r.tr()
+        try:
+            wrp.fit(x.copy())
+            wp = wrp.to_dict()
+            wlo, whi = wp['loc'] + wp['a'] * wp['scale'], wp['loc'] + wp['b'] * wp['scale']
+            r.ev()
+            if not (wp['type'].endswith('TruncatedGaussian') and abs(wlo - a) <= e and abs(whi - b) <= e):
+                r.violation(f'{sig}:user-bounds:through-wrapper', f'{tag}: Univariate(candidates=[TruncatedGaussian({a!r}, {b!r})]) '
+                            f'is fitted as {wp["type"]} with support [{wlo!r},{whi!r}]', case=case)
+        except Exception as ex:
+            r.violation(f'{sig}:user-bounds:through-wrapper:raises', f'{tag}: Univariate(candidates=[TruncatedGaussian({a!r}, '
+                        f'{b!r})]).fit raised {type(ex).__name__}: {ex}', case=case)
         r.hit('user-bounds')
     r['sample'] = {'family': fam, 'member': list(mem), 'loc': loc, 'scale': scale, 'n': n,
                    'sup_dist_true': d_true, 'band': band}
